@@ -139,6 +139,84 @@ def one(job):
     return idx, bad
 
 
+def param_values(_):
+    """The same task, the same parameter VALUES - objects whose identity matters, objects that are told their chain,
+    explicit None over a default, mutable containers - in a real chain and in both helpers."""
+    import itertools
+    import types
+
+    from taskchain import Config, Task
+    from taskchain.chain import ChainObject
+    from taskchain.parameter import Parameter, ParameterObject
+    from taskchain.utils.testing import TestChain, create_test_task
+
+    mod = types.ModuleType('vgen_c19p')
+    sys.modules['vgen_c19p'] = mod
+
+    class Sent(ParameterObject):
+        def repr(self):
+            return 'Sent()'
+
+    class Aware(ParameterObject, ChainObject):
+        def __init__(self):
+            self.chain_seen = False
+
+        def init_chain(self, chain):
+            self.chain_seen = True
+
+        def repr(self):
+            return 'Aware()'
+
+    SENT = Sent()
+    for c in (Sent, Aware):
+        c.__module__ = 'vgen_c19p'
+        setattr(mod, c.__name__, c)
+
+    class PvTask(Task):
+        class Meta:
+            name = 'pv'
+            parameters = [Parameter('s', default=None), Parameter('o', default=None), Parameter('n', default=3),
+                          Parameter('lst', default=None)]
+
+        def run(self, s, o, n, lst) -> dict:
+            return {'s_is_the_sentinel': s is SENT, 's_type': type(s).__name__, 'o_was_given_the_chain': getattr(o, 'chain_seen', None),
+                    'n': n, 'lst': lst}
+    PvTask.__module__ = 'vgen_c19p'
+    mod.PvTask = PvTask
+    menus = {'s': ['absent', SENT], 'o': ['absent', 'aware'], 'n': ['absent', None, 0], 'lst': ['absent', [1, [2, None]], []]}
+    bad = []
+    n_cases = 0
+    root = scratch(f'c19pv-{os.getpid()}')
+    try:
+        for combo in itertools.product(*menus.values()):
+            def params():
+                out = {}
+                for k, v in zip(menus, combo):
+                    if isinstance(v, str) and v == 'absent':
+                        continue
+                    out[k] = Aware() if isinstance(v, str) and v == 'aware' else (json.loads(json.dumps(v)) if isinstance(v, list) else v)
+                return out
+            n_cases += 1
+            label = f'parameters { {k: v for k, v in zip(menus, combo) if not (isinstance(v, str) and v == "absent")} }'
+            try:
+                real = Config(root / f'r{n_cases}', name='real', data={'tasks': [PvTask], **params()}).chain()['pv'].value
+            except Exception as e:  # noqa
+                bad.append(('harness', f'real chain failed for {label}: {type(e).__name__}: {e}'))
+                continue
+            for how, build in (('create_test_task', lambda: create_test_task(PvTask, parameters=params(), base_dir=root / f'c{n_cases}')),
+                               ('TestChain', lambda: TestChain([PvTask], parameters=params(), base_dir=root / f't{n_cases}')['pv'])):
+                try:
+                    got = build().value
+                except Exception as e:  # noqa
+                    bad.append((f'params:{how}', f'{how} with {label} raised {type(e).__name__}: {e}; the real chain yields {real!r}'))
+                    continue
+                if got != real:
+                    bad.append((f'params:{how}', f'{how} with {label} yields {got!r}, the real chain yields {real!r}'))
+    finally:
+        shutil.rmtree(root, ignore_errors=True)
+    return n_cases, bad
+
+
 def lifetime(_):
     """no base_dir given: results live in a temporary directory that must outlive the chain object while tasks do"""
     import gc
@@ -200,6 +278,13 @@ def run(ctx):
             ctx.report(cls + ':' + json.dumps([sorted(c['real']), sorted(c['mocks']), sorted(c['given'])]), text, detail=c)
     from ..procs import run_forked
     for cls, text in run_forked(lifetime, None):
+        ctx.report(cls, text)
+    ncase, bad = run_forked(param_values, None)
+    ctx.traces += ncase
+    ctx.extra['parameter_value_cases_against_a_real_chain'] = ncase
+    for cls, text in bad:
+        if cls == 'harness':
+            raise MachineryError(text)
         ctx.report(cls, text)
     for c in cases[:2] + cases[-2:]:
         ctx.sample(c)
